@@ -417,9 +417,10 @@ class _ActionHelpClassPath(Action):
             raise TypeError(f'{option_string}: Class "{value}" is not a {self._kind} {self._basename}')
         dest = re.sub("\\.help$", "", self.dest)
         subparser = type(parser)(description=f"Help for {option_string}={get_import_path(val_class)}")
+        sub_add_kwargs = dict(self.sub_add_kwargs)  # not in place: the dict may be the one shared by all instances of this action class
         if ActionTypeHint.is_callable_typehint(typehint) and hasattr(typehint, "__args__"):
-            self.sub_add_kwargs["skip"] = {max(0, len(typehint.__args__) - 1)}
-        subparser.add_class_arguments(val_class, dest, **self.sub_add_kwargs)
+            sub_add_kwargs["skip"] = {max(0, len(typehint.__args__) - 1)}
+        subparser.add_class_arguments(val_class, dest, **sub_add_kwargs)
         subparser._inner_parser = True
         remove_actions(subparser, (_HelpAction, _ActionPrintConfig, _ActionConfigLoad))
         args = self.get_args_after_opt(parser.args)
